@@ -808,7 +808,7 @@ func (f *Frame) execAlloc(i *ssa.Alloc, st *State, r string) {
 			return
 		}
 		s := c.eng.sortOf(et)
-		k := c.eng.boxKey(s)
+		k := c.eng.boxKey(et)
 		st.heap[k] = "(store " + c.heapTerm(st, k) + " " + ref + " " + c.eng.zero(s) + ")"
 		f.regs[i] = Val{T: ref, S: "Int", GT: i.Type()}
 		return
@@ -840,7 +840,7 @@ func (f *Frame) derefAddr(p Val, pt types.Type, st *State, r string, pos token.P
 		}
 	}
 	s := c.eng.sortOf(ptr.Elem())
-	return Val{A: &Addr{Kind: aBox, Base: p.T, Key: c.eng.boxKey(s), Sort: s}}
+	return Val{A: &Addr{Kind: aBox, Base: p.T, Key: c.eng.boxKey(ptr.Elem()), Sort: s}}
 }
 
 func (f *Frame) execUnOp(i *ssa.UnOp, st *State, r string) Val {
@@ -934,7 +934,7 @@ func (f *Frame) execFieldAddr(i *ssa.FieldAddr, st *State, r string) Val {
 	n, ok := pt.Elem().(*types.Named)
 	if !ok {
 		c.errorf("field address on pointer to unnamed struct")
-		return Val{A: &Addr{Kind: aBox, Base: x.T, Key: c.eng.boxKey("Int"), Sort: "Int"}}
+		return Val{A: &Addr{Kind: aBox, Base: x.T, Key: c.eng.boxKey(types.Typ[types.Int]), Sort: "Int"}}
 	}
 	fd := stType.Field(i.Field)
 	return Val{A: &Addr{Kind: aHeapField, Base: x.T, Key: c.eng.heapKeyField(n, fd.Name(), dt.Fields[i.Field].Sort), Sort: dt.Fields[i.Field].Sort}}
